@@ -198,6 +198,24 @@ def build_ext(r):
         return regs.serialize(format=r['fmt'], **r.get('kw', {}))
     if t == 'mask':
         return build(r['region']).to_mask(mode=r.get('mode', 'center'))
+    if t == 'table_variant':
+        # a FITS region table as other tools write it: other letter case of
+        # the column names, an extra column, another column order
+        from astropy.table import QTable
+        base = build({'t': 'serialized', 'fmt': 'fits',
+                      'regions': r['regions']})
+        names = list(base.colnames)
+        how = r['variant']
+        out = QTable()
+        if how == 'reversed':
+            names = names[::-1]
+        for n in names:
+            new = {'lower': n.lower(), 'mixed': n.capitalize()}.get(how, n)
+            out[new] = base[n]
+        if how == 'extra':
+            out['NOTE'] = ['x'] * len(base)
+        out.meta.update(base.meta)
+        return out
     raise ValueError(t)
 
 
@@ -205,6 +223,7 @@ _build_core = build
 
 
 def build(r):  # noqa: F811
-    if is_recipe(r) and r['t'] in ('datafile', 'serialized', 'mask'):
+    if is_recipe(r) and r['t'] in ('datafile', 'serialized', 'mask',
+                                   'table_variant'):
         return build_ext(r)
     return _build_core(r)
